@@ -159,3 +159,45 @@ impl Payload for RawC {
         Ok(RawC(payload.to_vec()))
     }
 }
+
+/// A payload / footer type that implements every trait a blanket impl could plausibly be conditioned on
+/// (Payload, Footer, Serialize, Deserialize, Display, Debug, Clone, Default, Eq, Ord, Hash): impl probes for *forbidden*
+/// token impls are made with it, so that `impl<M: Serialize> Serialize for UnsealedToken<.., M, ..>` cannot hide
+/// behind an unsatisfied bound on the message type.
+#[derive(Clone, Debug, Default, PartialEq, Eq, PartialOrd, Ord, Hash)]
+pub struct Rich(pub Vec<u8>);
+impl Payload for Rich {
+    const SUFFIX: &'static str = "";
+    fn encode(self, mut writer: impl WriteBytes) -> Result<(), Box<dyn Error + Send + Sync>> {
+        writer.write(&self.0);
+        Ok(())
+    }
+    fn decode(payload: &[u8]) -> Result<Self, Box<dyn Error + Send + Sync>> {
+        Ok(Rich(payload.to_vec()))
+    }
+}
+impl paseto_core::encodings::Footer for Rich {
+    fn encode(&self, mut writer: impl WriteBytes) -> Result<(), Box<dyn Error + Send + Sync>> {
+        writer.write(&self.0);
+        Ok(())
+    }
+    fn decode(footer: &[u8]) -> Result<Self, Box<dyn Error + Send + Sync>> {
+        Ok(Rich(footer.to_vec()))
+    }
+}
+impl std::fmt::Display for Rich {
+    fn fmt(&self, f: &mut std::fmt::Formatter<'_>) -> std::fmt::Result {
+        write!(f, "{}", crate::util::hex(&self.0))
+    }
+}
+impl serde_core::Serialize for Rich {
+    fn serialize<S: serde_core::Serializer>(&self, s: S) -> Result<S::Ok, S::Error> {
+        s.serialize_bytes(&self.0)
+    }
+}
+impl<'de> serde_core::Deserialize<'de> for Rich {
+    fn deserialize<D: serde_core::Deserializer<'de>>(d: D) -> Result<Self, D::Error> {
+        let s = <String as serde_core::Deserialize>::deserialize(d)?;
+        Ok(Rich(s.into_bytes()))
+    }
+}
